@@ -114,7 +114,7 @@ func runC17(w *World, r *Report, tier string) {
 					return
 				}
 				nNil++
-				if b, isC := boolConst(valueOnPath(rvI(rres(path, rt)[0], len(path)-1), path)); !isC || !b {
+				if b, isC := boolConst(resolveOn(rres(path, rt)[0], len(path)-1, path)); !isC || !b {
 					okTrue = false
 				}
 			})
@@ -544,7 +544,7 @@ func runC17(w *World, r *Report, tier string) {
 			if !isRet {
 				return
 			}
-			res := valueOnPath(rvI(rres(path, rt)[0], len(path)-1), path)
+			res := resolveOn(rres(path, rt)[0], len(path)-1, path)
 			if _, isC := boolConst(res); isC {
 				return
 			}
